@@ -98,7 +98,15 @@ func verifC02(n, t int, signers []int, msgLen int, fullBytes int) {
 		}
 		return pm
 	}
-	errs := net.Pump(parties, out, hook)
+	var errs []net.UpdateErr
+	if verifC02Mode == net.FIFO {
+		errs = net.Pump(parties, out, hook)
+	} else {
+		// C07 for signing: the delivery order is the scheduler's (every order / LIFO)
+		sc := &net.Sched{Parties: parties, Out: out, Mode: verifC02Mode, Dup: verifC02Dup, Hook: hook}
+		sc.Run()
+		errs = sc.Errs
+	}
 	if len(errs) > 0 {
 		v.Note("update error: " + errs[0].Err.Cause().Error())
 	}
@@ -136,3 +144,24 @@ func VerifHarness_C02_eddsa_sign_n3t1_all3()      { verifC02(3, 1, []int{0, 1, 2
 func VerifHarness_C02_eddsa_sign_n2t1_full32()    { verifC02(2, 1, []int{0, 1}, 32, 32) }
 func VerifHarness_C02_eddsa_sign_n2t1_longmsg()   { verifC02(2, 1, []int{1, 0}, 64, 64) }
 func VerifHarness_C02_eddsa_sign_n3t2_all3_short() { verifC02(3, 2, []int{2, 1, 0}, 1, 0) }
+
+// C07 for EdDSA signing (n=2): every causally consistent delivery order, LIFO, and every
+// message delivered twice; in each schedule all coins are symbolic and the C02 oracle above
+// is discharged by the solver
+var (
+	verifC02Mode = net.FIFO
+	verifC02Dup  = false
+)
+
+func VerifHarness_C07_eddsa_sign_n2_all_orders() {
+	verifC02Mode = net.Choose
+	verifC02(2, 1, []int{0, 1}, 32, 0)
+}
+func VerifHarness_C07_eddsa_sign_n3_lifo() {
+	verifC02Mode = net.LIFO
+	verifC02(3, 1, []int{0, 1, 2}, 32, 0)
+}
+func VerifHarness_C07_eddsa_sign_n2_dup_lifo() {
+	verifC02Mode, verifC02Dup = net.LIFO, true
+	verifC02(2, 1, []int{0, 1}, 32, 0)
+}
